@@ -327,6 +327,24 @@ theorem hits_ordered (cfg : Cfg) (hm : Herm) (md : Mode) (l : List Sample)
     rw [this]
     exact List.Pairwise.sublist (dedupGo_sublist cfg _ none 0) ho
 
+/-- **hits_ordered_backward** (every mode): for a trajectory sampled BACKWARD in time (non-increasing stamps, e.g. a stable-manifold branch)
+the reported hits are ordered by segment and by DEcreasing time — "time order per trajectory" along the trajectory. -/
+theorem hits_ordered_backward (cfg : Cfg) (hm : Herm) (md : Mode) (l : List Sample)
+    (ht : l.Pairwise (fun a b => b.t ≤ a.t)) :
+    (detect cfg hm md l).Pairwise (fun a b => a.seg ≤ b.seg ∧ b.time ≤ a.time) := by
+  by_cases hr : md.refine = 0
+  · rw [detect_plain cfg hm md l hr, filterMap_eq_flatMap]
+    refine List.Pairwise.sublist (dedupGo_sublist cfg _ none 0) (flatMap_ordered_desc _ l ht fun s => ⟨?_, ?_⟩)
+    · intro h hh
+      exact segCand_inSeg (Option.mem_toList.mp hh)
+    · cases segCand cfg hm md s <;> simp
+  · rw [detect_refine cfg hm md l hr]
+    have ho := flatMap_ordered_desc (refineSeg cfg hm md) l ht (refineSeg_spec cfg hm md)
+    have : sortBySeg (refineCandidates cfg hm md (segs l)) = refineCandidates cfg hm md (segs l) :=
+      sortBySeg_of_sorted _ (ho.imp fun hab => hab.1)
+    rw [this]
+    exact List.Pairwise.sublist (dedupGo_sublist cfg _ none 0) ho
+
 /-- on the plain path two distinct hits never share a segment -/
 theorem hits_distinct_segments (cfg : Cfg) (hm : Herm) (md : Mode) (l : List Sample) (hr : md.refine = 0) :
     (detect cfg hm md l).Pairwise (fun a b => a.seg < b.seg) := by
